@@ -64,6 +64,12 @@ def judge_case(args):
     except Exception as e:  # noqa
         art, real, raised = None, None, type(e).__name__
     res = {"salt": salt, "raised": raised, "art": art if isinstance(art, str) else None}
+    if runner == "docstring" and isinstance(art, str) and "lines" in case:
+        from harness import doclines
+        try:
+            res["line_drift"] = doclines.drift(case, art, list(ir["params"].keys()))
+        except Exception as e:  # noqa -- diagnostic only
+            res["line_drift"] = "tokeniser failed: {!r}".format(e)
     exp = case["exp"]
     # a configuration that asks for the default to be documented in prose gets that sentence back in the description
     strip = runner == "format" and bool(case["cfg"].get("edd"))
@@ -137,6 +143,8 @@ def replay(run, cases, runner, label=None, max_report=None):
             counts[v] += 1
             for d in case["devs"]:
                 run.trigger(d)
+            if res.get("line_drift"):
+                DRIFT.append((case["cfg"], _short(case["i"]), res["line_drift"]))
             if v == "held":
                 run.held(key)
             elif v == "finding":
@@ -154,10 +162,20 @@ def replay(run, cases, runner, label=None, max_report=None):
             if v != "violation" and len(run.samples) < 4 and case["i"]["params"]:
                 run.sample({"cfg": case["cfg"], "i": case["i"], "exp": case["exp"], "artefact": (res.get("art") or "")[:400],
                             "verdict": v})
+    if DRIFT:
+        kinds = collections.Counter((str(c.get("style")), d.split(":")[1][:60]) for c, _, d in DRIFT)
+        for (st, what), n_ in kinds.most_common(6):
+            ex = next((c, i_, d) for c, i_, d in DRIFT if str(c.get("style")) == st and d.split(":")[1][:60] == what)
+            run.model_drift("DocLines.tla ({} cases, style {}): cfg={} i={}: {}".format(n_, st, ex[0], ex[1], ex[2]))
+        run.extra["doclines_drift_cases"] = len(DRIFT)
+        del DRIFT[:]
     run.extra.setdefault("verdicts", {})
     for k, v in counts.items():
         run.extra["verdicts"][k] = run.extra["verdicts"].get(k, 0) + v
     return counts, clusters
+
+
+DRIFT = []
 
 
 def _short(i):
